@@ -220,6 +220,10 @@ pub struct Scn {
     /// the service it listens to
     #[serde(default)]
     pub reentrant: bool,
+    /// the first listener of every hook blocks the thread for 7 ms (a slow log sink) instead of
+    /// panicking; only in configurations in which nothing depends on a few milliseconds
+    #[serde(default)]
+    pub blocking: bool,
     /// requests share two keys, so that a cache in the stack has hits (only with `reentrant`;
     /// the transparency rules do not apply to such a run)
     #[serde(default)]
@@ -281,7 +285,8 @@ pub fn gen(rng: &mut Rng) -> Scn {
     // really retries ... will do next: only configurations that stay passive)
     let reentrant = mode == 3 && !triggering && rng.chance(1, 3);
     let dup_keys = reentrant && stack.contains(&L::Cache);
-    Scn { stack, mode, triggering, ready_script, pressure, zero_backoff, clone_warmup_ms, primed_template, alt, reentrant, dup_keys, reqs, knobs }
+    let blocking = mode == 3 && !triggering && !pressure && !reentrant && rng.chance(1, 3);
+    Scn { stack, mode, triggering, ready_script, pressure, zero_backoff, clone_warmup_ms, primed_template, alt, reentrant, blocking, dup_keys, reqs, knobs }
 }
 
 pub fn valid(s: &Scn) -> bool {
@@ -302,6 +307,7 @@ pub fn valid(s: &Scn) -> bool {
         && (s.mode == 0 || s.ready_script.is_empty())
         && (!s.reentrant || (s.mode == 3 && !s.triggering))
         && (!s.dup_keys || s.reentrant)
+        && (!s.blocking || (s.mode == 3 && !s.triggering && !s.pressure && !s.reentrant))
         && s.knobs.jumps.is_empty()
 }
 
@@ -320,6 +326,9 @@ fn lst(layer: i64, ev: i64, first_does: u8, second: bool) {
         if first_does == 1 {
             world::fault("listener_panic");
             std::panic::panic_any(SimPanic);
+        }
+        if first_does == 3 && world::with(|w| w.blocked_ms) < 280 {
+            world::block_for(7);
         }
         if first_does == 2 && REENTER_DEPTH.with(|d| d.get()) == 0 && REENTER_N.with(|n| n.get()) < 6 {
             let svc = REENTER.with(|r| r.borrow().clone());
@@ -353,6 +362,7 @@ fn wrap(kind: L, pos: i64, trig: bool, pressure: bool, zero_backoff: bool, alt: 
     let pf: u8 = match listeners {
         2 => 1,
         3 => 2,
+        4 => 3,
         _ => 0,
     };
     let want_l = listeners > 0;
@@ -849,13 +859,13 @@ pub fn run(s: &Scn, ctx: &mut RunCtx) -> RunOutput {
     let mut steps = main.rep.steps as u64;
     if s.mode == 3 {
         let mut c2 = Chooser::from_trace(ctx.chooser.trace.clone());
-        let other = run_once(s, &mut c2, ctx.rt_seed, if s.reentrant { 3 } else { 2 });
+        let other = run_once(s, &mut c2, ctx.rt_seed, if s.reentrant { 3 } else if s.blocking { 4 } else { 2 });
         steps += other.rep.steps as u64;
         digest = crate::rng::mix(&[digest, world::digest(&other.log)]);
         let a = outcome_key(&main, n, off);
         let b = outcome_key(&other, n, off);
         if a != b {
-            push("C20.outcomes_unchanged", "", format!("with panicking listeners the outcomes changed from {:?} to {:?}; stack {}", a, b, stack_desc));
+            push("C20.outcomes_unchanged", "", format!("with panicking / re-entering / blocking listeners the outcomes changed from {:?} to {:?}; stack {}", a, b, stack_desc));
         }
         let count = |o: &SimOut| {
             let mut m = std::collections::BTreeMap::new();
@@ -865,13 +875,15 @@ pub fn run(s: &Scn, ctx: &mut RunCtx) -> RunOutput {
             m
         };
         let (ca, cb) = (count(&main), count(&other));
-        // (a listener that calls back into the service adds events of its own)
-        if ca != cb && !s.reentrant {
+        // (a listener that calls back into the service adds events of its own; one that blocks
+        // the thread moves every later timer, which may decide a tie between two layers' timers
+        // the other way and so change which events there are, though not the outcome)
+        if ca != cb && !s.reentrant && !s.blocking {
             push("C20.surviving_listeners_see_all", "", format!("events seen by the second listener of each hook: {:?} without panics, {:?} when the first listener panics; stack {}", ca, cb, stack_desc));
         }
         other_faults = other.world.faults.clone();
-        nontrivial = other.world.faults.get("listener_panic").copied().unwrap_or(0) + other.world.faults.get("listener_reentered").copied().unwrap_or(0) > 0;
-        if c2.diverged && !s.reentrant {
+        nontrivial = other.world.faults.get("listener_panic").copied().unwrap_or(0) + other.world.faults.get("listener_reentered").copied().unwrap_or(0) + other.world.faults.get("blocking_callback").copied().unwrap_or(0) > 0;
+        if c2.diverged && !s.reentrant && !s.blocking {
             push("C20.outcomes_unchanged", "schedule_diverged", "the second run could not follow the first run's schedule".into());
         }
     }
@@ -881,7 +893,7 @@ pub fn run(s: &Scn, ctx: &mut RunCtx) -> RunOutput {
     if s.mode == 3 {
         *faults.entry("listener_panic_run").or_insert(0) += 1;
         for (k, v) in other_faults.iter() {
-            if k.starts_with("listener_") {
+            if k.starts_with("listener_") || *k == "blocking_callback" {
                 *faults.entry(k).or_insert(0) += *v;
             }
         }
